@@ -130,6 +130,8 @@ def gen_graph(rng, gname, max_nodes=8, shapes=None, allow_cond=True):
                         "cond", "cond", "cond_nested", "multi_cond", "cond_dag"]
     if not allow_cond:
         shapes = [s for s in shapes if not s.startswith("cond") and s != "multi_cond"]
+    if max_nodes <= 5:
+        shapes = [sh for sh in shapes if sh not in ("multi_cond", "cond_nested", "cond_dag")] or shapes
     shape = rng.choice(shapes)
     namer = _Namer("n")
     blocks = []
@@ -157,7 +159,7 @@ def gen_graph(rng, gname, max_nodes=8, shapes=None, allow_cond=True):
     elif shape == "random":
         nodes = _random_dag(rng, [namer() for _ in range(rng.randint(3, max_nodes))])
     else:
-        budget = [max_nodes + 4]
+        budget = [max_nodes + (4 if max_nodes > 5 else 0)]
         depth = 1 if shape == "cond_nested" else 0
         nodes, cin, cout = _cond_block(rng, namer, depth, budget, branch_dag=(shape == "cond_dag"),
                                        blocks=blocks)
@@ -398,6 +400,9 @@ def gen_world(seed, index, profile="greedy", **over):
         total += inv * (per_graph * 2 + 12) + g.get("start", 0) + inv * (g.get("period", 10) + 10)
     sf = max(flags.get("scheduler_frequency", -1), 0)
     timeout = 20 * (total + 10 * (sf + flags.get("scheduler_delay", 0) + 2)) + 200
+    if small:
+        # every microsecond of a planner run may cost a solver call: keep the horizon short
+        timeout = min(timeout, 4 * total + 60, 400)
     flags["loop_timeout"] = over.get("loop_timeout", timeout)
     world = {
         "seed": seed, "index": index, "profile": profile,
